@@ -40,6 +40,12 @@ def child_run(path, side, prog, upto, do_flush, final, record=True, kill=True):
         # by later ops differ from the ones of creation (a timestamp that misses the flush is a lost write too)
         from props.c19 import _CLOCK, install_clock
         install_clock()
+        if final.get("pre"):
+            # the path already holds a (closed) file of an earlier recording, which the writer overwrites
+            import nixio
+            f0 = nixio.File.open(path, nixio.FileMode.Overwrite)
+            f0.create_block("previous recording", "t").create_data_array("old", "t", data=list(range(50)))
+            f0.close()
         it = Interp(path, compression="DeflateNormal" if final.get("compress") else None, clock=_CLOCK)
         for i, op in enumerate(prog[:upto]):
             _CLOCK.advance(1 + i % 3)
@@ -72,9 +78,15 @@ def child_run(path, side, prog, upto, do_flush, final, record=True, kill=True):
 
 def crash_once(ctx, path, prog, upto, do_flush, final, record=True, kill=True):
     side = path + ".walk.json"
-    for p in (path, side, side + ".err"):
-        if os.path.exists(p):
-            os.remove(p)
+    # a clean directory for every writer: nothing a killed writer left next to its file (lock or temporary
+    # files) may influence the next case
+    d = os.path.dirname(path)
+    for fn in os.listdir(d):
+        if fn.startswith(os.path.basename(path)):
+            try:
+                os.remove(os.path.join(d, fn))
+            except OSError:
+                pass
     pid = os.fork()
     if pid == 0:
         child_run(path, side, prog, upto, do_flush, final, record, kill)
@@ -172,7 +184,7 @@ def run_case(case, ctx):
         if o["op"] not in ("tick",):
             since += 1
     nt = (creations >= 3 or appends >= 1) and since >= 1
-    classes = ["point:" + final["kind"], "expected-from:" + ("reference-run" if blind else "walk-before-flush"),
+    classes = ["point:" + final["kind"], "path:" + ("held-a-file-before" if final.get("pre") else "new"), "expected-from:" + ("reference-run" if blind else "walk-before-flush"),
                "compress" if final.get("compress") else "plain",
                "appends:%d" % min(appends, 3), "since-last-flush:%d" % min(since, 5)]
     between = []
@@ -215,7 +227,7 @@ def program_strategy(draw, max_ops):
         body = [draw(S[kind]) for _ in range(draw(st.integers(1, 3)))]
         at = draw(st.integers(min(len(prog), 8), len(prog)))
         prog[at:at] = [{"op": "flush"}] + body + [{"op": "flush"}]
-    return {"prog": prog, "compress": draw(st.booleans())}
+    return {"prog": prog, "compress": draw(st.booleans()), "pre": draw(st.sampled_from([False, False, True]))}
 
 
 def run_program(pc, ctx, control_every):
@@ -224,9 +236,9 @@ def run_program(pc, ctx, control_every):
     n = 0
     for i in pts:
         n += 1
-        run_case({"prog": prog, "upto": i, "final": {"kind": "flush", "compress": pc["compress"]},
+        run_case({"prog": prog, "upto": i, "final": {"kind": "flush", "compress": pc["compress"], "pre": pc.get("pre", False)},
                   "control": (n % control_every == 0), "observe": "reference" if (n + len(prog)) % 3 == 0 else "walk"}, ctx)
-    run_case({"prog": prog, "upto": len(prog), "final": {"kind": "close", "compress": pc["compress"]},
+    run_case({"prog": prog, "upto": len(prog), "final": {"kind": "close", "compress": pc["compress"], "pre": pc.get("pre", False)},
               "control": False, "observe": "reference" if len(prog) % 2 else "walk"}, ctx)
 
 
